@@ -21,6 +21,9 @@ def make_loop(sim, shim=None):
             self._wake = shim.Condition(shim.Lock()) if shim is not None else None
             self._woken = False
             self.idle_stop = shim is None
+            self.callback_errors = []  # exceptions that escaped a callback (asyncio would only log them)
+            if shim is not None:
+                self.set_exception_handler(lambda loop, ctx: self.callback_errors.append(ctx.get("exception") or ctx.get("message")))
 
         def time(self):
             return sim.now / 1e6
